@@ -22,7 +22,9 @@ import time
 
 VERIF = os.path.dirname(os.path.dirname(os.path.abspath(__file__)))
 REPO = os.environ.get('VERIF_REPO', '/repo')
-COQ = os.path.join(VERIF, 'coq')
+# seeded-change trials build in a private copy of the Coq tree (VERIF_COQ_DIR) so that facts generated from a changed
+# source never meet the unchanged tree's build
+COQ = os.environ.get('VERIF_COQ_DIR') or os.path.join(VERIF, 'coq')
 PY = '/venv/bin/python'
 NCPU = min(16, os.cpu_count() or 4)
 
@@ -82,7 +84,7 @@ class _Lock(object):
         self.f = None
 
     def __enter__(self):
-        self.f = open(os.path.join(VERIF, '.build.lock'), 'w')
+        self.f = open(os.path.join(COQ if os.environ.get('VERIF_COQ_DIR') else VERIF, '.build.lock'), 'w')
         fcntl.flock(self.f, fcntl.LOCK_EX)
 
     def __exit__(self, *a):
